@@ -87,9 +87,15 @@ def gen(repo):
             raise ExtractError("set_dir: expected fragment missing: " + frag)
     ta = read(repo, "crates/core/src/archiver/tree_archiver.rs")
     bt = norm(fn_body(ta, "backup_tree"))
-    for frag in ("ParentResult::Matched(p_id) if id == *p_id => {", "return Ok(id);", "if !self.index.has_tree(&id) { self.tree_packer.add(chunk.into(), id.into())?; } Ok(id)"):
+    for frag in ("return Ok(id);", "if !self.index.has_tree(&id) { self.tree_packer.add(chunk.into(), id.into())?; } Ok(id)"):
         if frag not in bt:
             raise ExtractError("backup_tree: expected fragment missing: " + frag)
+    if "ParentResult::Matched(p_id) if id == *p_id && self.index.has_tree(&id) => {" in bt:
+        shortcut_guarded = True
+    elif "ParentResult::Matched(p_id) if id == *p_id => {" in bt:
+        shortcut_guarded = False
+    else:
+        raise ExtractError("backup_tree: guard of the unchanged-tree arm not understood")
     fa = read(repo, "crates/core/src/archiver/file_archiver.rs")
     fp = norm(fn_body(fa, "process"))
     for frag in ("if matches!(parent, ParentResult::Matched(()))", "else if node.node_type == NodeType::File {", "} else { (node, 0) };"):
@@ -111,7 +117,9 @@ def gen(repo):
     txt += "Definition match_inode_clause (ig : bool) (pi i : N) : bool :=\n  (%s)%%bool.\n\n" % " || ".join("(%s)" % x for x in ino)
     txt += "(* %s *)\n" % " && ".join(cj_src)
     txt += "Definition is_parent_conj (ty sz mt ct ino : bool) : bool :=\n  %s.\n" % " && ".join(cj)
-    meta = {"match_ctime": " || ".join(ct_src), "match_inode": " || ".join(ino_src), "conjunction": " && ".join(cj_src),
+    txt += "\n(* guard of the unchanged-tree arm of TreeArchiver::backup_tree: `id == *p_id` %s *)\n" % ("&& self.index.has_tree(&id)" if shortcut_guarded else "(no index test)")
+    txt += "Definition shortcut_requires_has_tree : bool := %s.\n" % ("true" if shortcut_guarded else "false")
+    meta = {"shortcut_requires_has_tree": shortcut_guarded, "match_ctime": " || ".join(ct_src), "match_inode": " || ".join(ino_src), "conjunction": " && ".join(cj_src),
             "inode_clause_uses_negated_option": "!ignore_inode" in ino_src,
             "shape_checks": ["is_parent peek/find", "p_node loop", "process reuse guard + unwrap + set_dir order", "set_dir sort/dedup/stack",
                              "backup_tree short-cut + has_tree guard", "FileArchiver::process arms", "get_parent force", "archive skip guard"]}
